@@ -4,6 +4,8 @@ import (
 	"bufio"
 	"flag"
 	"fmt"
+	"io/ioutil"
+	"log"
 	"os"
 	"sort"
 	"strings"
@@ -51,6 +53,7 @@ var streams = map[string]stream{}
 var _ = strings.Split
 
 func main() {
+	log.SetOutput(ioutil.Discard)
 	seed := flag.Uint64("seed", 1, "seed")
 	tier := flag.String("tier", "quick", "quick|thorough")
 	out := flag.String("out", "", "output file")
